@@ -51,24 +51,28 @@ Inductive aframe :=
 | AData (op : N) (decomp : bool) (len : N) (key : bytes) (rest : bytes) (st : gst)   (* text/binary/continuation header *)
 | ACtl (evs : list event) (rest : bytes) (st : gst).                 (* control frame handled *)
 
-(* the errs list built from the first two header bytes; also the new readFinal *)
-Definition header_errs (cfg : rcfg) (st : gst) (b0 b1 : N) : list bytes * bool :=
-  let op := b_opcode b0 in
-  let final := b_fin b0 in
-  let e1 := if b_rsv1 b0 && negb (rc_compress cfg) then [str "RSV1 set"] else [] in
-  let e2 := if b_rsv2 b0 then [str "RSV2 set"] else [] in
-  let e3 := if b_rsv3 b0 then [str "RSV3 set"] else [] in
+(* the errs list built from the first two header bytes; also the new readFinal.
+   Written over the decoded header fields (final = FIN bit, gfinal = c.readFinal). *)
+Definition header_errs_f (compress server gfinal : bool) (final rsv1 rsv2 rsv3 masked : bool) (op len7 : N)
+  : list bytes * bool :=
+  let e1 := if rsv1 && negb compress then [str "RSV1 set"] else [] in
+  let e2 := if rsv2 then [str "RSV2 set"] else [] in
+  let e3 := if rsv3 then [str "RSV3 set"] else [] in
   let '(e4, fin') :=
     if (op =? c_CloseMessage) || (op =? c_PingMessage) || (op =? c_PongMessage) then
-      ((if c_maxControlFramePayloadSize <? b_len7 b1 then [str "len > 125 for control"] else [])
-         ++ (if negb final then [str "FIN not set on control"] else []), g_final st)
+      ((if c_maxControlFramePayloadSize <? len7 then [str "len > 125 for control"] else [])
+         ++ (if negb final then [str "FIN not set on control"] else []), gfinal)
     else if (op =? c_TextMessage) || (op =? c_BinaryMessage) then
-      ((if negb (g_final st) then [str "data before FIN"] else []), final)
+      ((if negb gfinal then [str "data before FIN"] else []), final)
     else if op =? c_continuationFrame then
-      ((if g_final st then [str "continuation after FIN"] else []), final)
-    else ([str "bad opcode " ++ itoa op], g_final st) in
-  let e5 := if negb (Bool.eqb (b_masked b1) (rc_server cfg)) then [str "bad MASK"] else [] in
+      ((if gfinal then [str "continuation after FIN"] else []), final)
+    else ([str "bad opcode " ++ itoa op], gfinal) in
+  let e5 := if negb (Bool.eqb masked server) then [str "bad MASK"] else [] in
   (e1 ++ e2 ++ e3 ++ e4 ++ e5, fin').
+
+Definition header_errs (cfg : rcfg) (st : gst) (b0 b1 : N) : list bytes * bool :=
+  header_errs_f (rc_compress cfg) (rc_server cfg) (g_final st)
+                (b_fin b0) (b_rsv1 b0) (b_rsv2 b0) (b_rsv3 b0) (b_masked b1) (b_opcode b0) (b_len7 b1).
 
 (* step 7 of advanceFrame for a close frame whose payload has been read and unmasked *)
 Definition handle_close (cfg : rcfg) (payload : bytes) : list event :=
@@ -84,6 +88,58 @@ Definition handle_close (cfg : rcfg) (payload : bytes) : list event :=
   | [] => [Wrote c_CloseMessage (format_close_message c_CloseNoStatusReceived []); Err (EClose c_CloseNoStatusReceived [])]
   end.
 
+(* 3. extended payload length *)
+Definition read_len (cfg : rcfg) (len7 : N) (bs1 : bytes) : list event + (N * bytes) :=
+  if len7 =? 126 then
+    match conn_read cfg 2 bs1 with
+    | RdOk q bs2 => match q with _ :: _ :: _ => inr (be q, bs2) | _ => inl [Err EPanic] end
+    | r => inl (rd_err r)
+    end
+  else if len7 =? 127 then
+    match conn_read cfg 8 bs1 with
+    | RdOk q bs2 =>
+        match q with
+        | _ :: _ :: _ :: _ :: _ :: _ :: _ :: _ :: _ =>
+            if int63 <=? be q then inl [Err EReadLimit] else inr (be q, bs2)
+        | _ => inl [Err EPanic]
+        end
+    | r => inl (rd_err r)
+    end
+  else inr (len7, bs1).
+
+(* 4. masking key *)
+Definition read_key (cfg : rcfg) (mask : bool) (bs2 : bytes) : list event + (bytes * bytes) :=
+  if mask then
+    match conn_read cfg 4 bs2 with
+    | RdOk k bs3 => inr (k, bs3)
+    | r => inl (rd_err r)
+    end
+  else inr ([], bs2).
+
+(* 6./7. control frame: payload and handlers; st1 = state after the header *)
+Definition control_frame (cfg : rcfg) (st1 : gst) (op len : N) (key bs3 : bytes) : aframe :=
+  let payr := if 0 <? len then
+                match conn_read cfg len bs3 with
+                | RdOk pl bs4 => inr ((if rc_server cfg then xor_mask key 0 pl else pl), bs4)
+                | r => inl (rd_err r)
+                end
+              else inr ([], bs3) in
+  match payr with
+  | inl evs => AErr evs
+  | inr (payload, bs4) =>
+      if op =? c_PongMessage then ACtl [] bs4 st1
+      else if op =? c_PingMessage then ACtl [Wrote c_PongMessage payload] bs4 st1
+      else AErr (handle_close cfg payload)
+  end.
+
+(* 5. data frame: read limit *)
+Definition data_frame (cfg : rcfg) (st : gst) (fin' decomp : bool) (op len : N) (key bs3 : bytes) : aframe :=
+  let total := g_len st + len in
+  if int63 <=? total then AErr [Err EReadLimit]
+  else if (0 <? rc_limit cfg) && (rc_limit cfg <? total) then
+    AErr [Wrote c_CloseMessage (format_close_message c_CloseMessageTooBig []); Err EReadLimit]
+  else AData op decomp len key bs3 (mkG fin' total).
+
 (* advanceFrame, entered with c.readRemaining = 0 *)
 Definition advance_frame (cfg : rcfg) (st : gst) (bs : bytes) : aframe :=
   match conn_read cfg 2 bs with
@@ -91,66 +147,19 @@ Definition advance_frame (cfg : rcfg) (st : gst) (bs : bytes) : aframe :=
       match p with
       | b0 :: b1 :: _ =>
           let op := b_opcode b0 in
-          let mask := b_masked b1 in
           let '(errs, fin') := header_errs cfg st b0 b1 in
-          let st1 := mkG fin' (g_len st) in
           match errs with
           | _ :: _ => AErr (proto_error (join sep_comma errs))
           | [] =>
-              (* 3. extended length *)
-              let lenr :=
-                  if b_len7 b1 =? 126 then
-                    match conn_read cfg 2 bs1 with
-                    | RdOk q bs2 => match q with _ :: _ :: _ => inr (be q, bs2) | _ => inl [Err EPanic] end
-                    | r => inl (rd_err r)
-                    end
-                  else if b_len7 b1 =? 127 then
-                    match conn_read cfg 8 bs1 with
-                    | RdOk q bs2 =>
-                        match q with
-                        | _ :: _ :: _ :: _ :: _ :: _ :: _ :: _ :: _ =>
-                            if int63 <=? be q then inl [Err EReadLimit] else inr (be q, bs2)
-                        | _ => inl [Err EPanic]
-                        end
-                    | r => inl (rd_err r)
-                    end
-                  else inr (b_len7 b1, bs1) in
-              match lenr with
+              match read_len cfg (b_len7 b1) bs1 with
               | inl evs => AErr evs
               | inr (len, bs2) =>
-                  (* 4. masking key *)
-                  let keyr := if mask then
-                                match conn_read cfg 4 bs2 with
-                                | RdOk k bs3 => inr (k, bs3)
-                                | r => inl (rd_err r)
-                                end
-                              else inr ([], bs2) in
-                  match keyr with
+                  match read_key cfg (b_masked b1) bs2 with
                   | inl evs => AErr evs
                   | inr (key, bs3) =>
                       if (op =? c_continuationFrame) || (op =? c_TextMessage) || (op =? c_BinaryMessage) then
-                        (* 5. read limit *)
-                        let total := g_len st1 + len in
-                        if int63 <=? total then AErr [Err EReadLimit]
-                        else if (0 <? rc_limit cfg) && (rc_limit cfg <? total) then
-                          AErr [Wrote c_CloseMessage (format_close_message c_CloseMessageTooBig []); Err EReadLimit]
-                        else AData op (b_rsv1 b0 && rc_compress cfg) len key bs3 (mkG fin' total)
-                      else
-                        (* 6. control payload *)
-                        let payr := if 0 <? len then
-                                      match conn_read cfg len bs3 with
-                                      | RdOk pl bs4 => inr ((if rc_server cfg then xor_mask key 0 pl else pl), bs4)
-                                      | r => inl (rd_err r)
-                                      end
-                                    else inr ([], bs3) in
-                        match payr with
-                        | inl evs => AErr evs
-                        | inr (payload, bs4) =>
-                            (* 7. handlers *)
-                            if op =? c_PongMessage then ACtl [] bs4 st1
-                            else if op =? c_PingMessage then ACtl [Wrote c_PongMessage payload] bs4 st1
-                            else AErr (handle_close cfg payload)
-                        end
+                        data_frame cfg st fin' (b_rsv1 b0 && rc_compress cfg) op len key bs3
+                      else control_frame cfg (mkG fin' (g_len st)) op len key bs3
                   end
               end
           end
@@ -176,36 +185,54 @@ Definition deliver (cfg : rcfg) (inflate : bytes -> option bytes) (typ : N) (dec
     end
   else ([Msg typ data], true).
 
-(* ReadMessage in a loop.  cur = the message being reassembled by messageReader (None while in NextReader). *)
+(* One iteration of the frame loop of NextReader / messageReader.Read: one advanceFrame call and, for a
+   data frame, the reading of its payload.  cur = the message being reassembled by messageReader
+   (None while in NextReader). *)
+Inductive gres :=
+| GEnd (evs : list event)
+| GCont (evs : list event) (st : gst) (cur : option (N * bool * bytes)) (rest : bytes).
+
+(* NextReader / messageReader.Read after advanceFrame returned a data frame header: the payload *)
+Definition data_step (cfg : rcfg) (inflate : bytes -> option bytes) (cur : option (N * bool * bytes))
+           (op : N) (decomp : bool) (len : N) (key rest : bytes) (st' : gst) : gres :=
+  let start :=                                   (* which message does this frame belong to *)
+      match cur with
+      | None => if (op =? c_TextMessage) || (op =? c_BinaryMessage) then inr (op, decomp, [])
+                else inl [Err EUnreachable]     (* continuation of an abandoned message *)
+      | Some (typ, dc, acc) => if op =? c_continuationFrame then inr (typ, dc, acc)
+                               else inl [Err EUnreachable]   (* "unexpected text or binary in Reader" *)
+      end in
+  match start with
+  | inl evs => GEnd evs
+  | inr (typ, dc, acc) =>
+      match take_n len rest with
+      | None => GEnd [Err EEof]                                  (* stream ends inside the payload *)
+      | Some (pl, rest') =>
+          let data := acc ++ (if rc_server cfg then xor_mask key 0 pl else pl) in
+          if g_final st' then
+            let '(evs, ok) := deliver cfg inflate typ dc data in
+            if ok then GCont evs (mkG true 0) None rest' else GEnd evs
+          else GCont [] st' (Some (typ, dc, data)) rest'
+      end
+  end.
+
+Definition go_step (cfg : rcfg) (inflate : bytes -> option bytes)
+           (st : gst) (cur : option (N * bool * bytes)) (bs : bytes) : gres :=
+  match advance_frame cfg st bs with
+  | AErr evs => GEnd evs
+  | ACtl evs rest st' => GCont evs st' cur rest
+  | AData op decomp len key rest st' => data_step cfg inflate cur op decomp len key rest st'
+  end.
+
+(* ReadMessage in a loop until the first error *)
 Fixpoint read_loop (fuel : nat) (cfg : rcfg) (inflate : bytes -> option bytes)
          (st : gst) (cur : option (N * bool * bytes)) (bs : bytes) : list event :=
   match fuel with
   | O => [Err EFuel]
   | S f =>
-      match advance_frame cfg st bs with
-      | AErr evs => evs
-      | ACtl evs rest st' => evs ++ read_loop f cfg inflate st' cur rest
-      | AData op decomp len key rest st' =>
-          let start :=                                   (* which message does this frame belong to *)
-              match cur with
-              | None => if (op =? c_TextMessage) || (op =? c_BinaryMessage) then inr (op, decomp, [])
-                        else inl [Err EUnreachable]     (* continuation of an abandoned message *)
-              | Some (typ, dc, acc) => if op =? c_continuationFrame then inr (typ, dc, acc)
-                                       else inl [Err EUnreachable]   (* "unexpected text or binary in Reader" *)
-              end in
-          match start with
-          | inl evs => evs
-          | inr (typ, dc, acc) =>
-              match take_n len rest with
-              | None => [Err EEof]                                  (* stream ends inside the payload *)
-              | Some (pl, rest') =>
-                  let data := acc ++ (if rc_server cfg then xor_mask key 0 pl else pl) in
-                  if g_final st' then
-                    let '(evs, ok) := deliver cfg inflate typ dc data in
-                    if ok then evs ++ read_loop f cfg inflate (mkG true 0) None rest' else evs
-                  else read_loop f cfg inflate st' (Some (typ, dc, data)) rest'
-              end
-          end
+      match go_step cfg inflate st cur bs with
+      | GEnd evs => evs
+      | GCont evs st' cur' rest => evs ++ read_loop f cfg inflate st' cur' rest
       end
   end.
 
